@@ -54,6 +54,13 @@ Fixpoint spell (e : expr) : toks :=
   | EString _ _ v => [t_string v]
   | EBytes _ _ v => [t_bytes v]
   | EParam _ n => [t_param n]
+  | EIsNull _ neg l => spell l ++ tk "IS" :: (if neg then [tk "NOT"] else []) ++ [tk "NULL"]
+  | EIsBool _ neg l v => spell l ++ tk "IS" :: (if neg then [tk "NOT"] else []) ++ [tk (if v then "TRUE" else "FALSE")]
+  | EBetween neg l s x => spell l ++ (if neg then [tk "NOT"] else []) ++ tk "BETWEEN" :: spell s ++ tk "AND" :: spell x
+  | EIn neg l (CUnnest _ _ x) => spell l ++ (if neg then [tk "NOT"] else []) ++ tk "IN" :: tk "UNNEST" :: tk "(" :: spell x ++ [tk ")"]
+  | EIn neg l (CValues _ _ (e1 :: es)) =>
+      spell l ++ (if neg then [tk "NOT"] else []) ++ tk "IN" :: tk "(" :: spell e1 ++
+      (fix go (r : list expr) : toks := match r with [] => [] | x :: r' => tk "," :: spell x ++ go r' end) es ++ [tk ")"]
   | _ => []            (* outside the part of the fragment covered by the round-trip theorem *)
   end.
 
@@ -93,4 +100,59 @@ Inductive can : nat -> expr -> Prop :=
 | CBin op n l r : op_level op = Some n -> (n <= 8 \/ n = 11 \/ n = 12)%nat ->
                   can n l -> can (Nat.pred n) r -> can n (EBinary op l r)
 (* the comparison family is non-associative: both operands one level tighter *)
-| CCmp op l r : op_level op = Some 9%nat -> can 8 l -> can 8 r -> can 9 (EBinary op l r).
+| CCmp op l r : op_level op = Some 9%nat -> can 8 l -> can 8 r -> can 9 (EBinary op l r)
+(* IS [NOT] NULL / TRUE / FALSE and [NOT] BETWEEN belong to the comparison family: operands one level tighter *)
+| CIsNull neg l : can 8 l -> can 9 (EIsNull 0 neg l)
+| CIsBool neg l v : can 8 l -> can 9 (EIsBool 0 neg l v)
+| CBetween neg l s x : can 8 l -> can 8 s -> can 8 x -> can 9 (EBetween neg l s x)
+| CInUnnest neg l x : can 8 l -> can 12 x -> can 9 (EIn neg l (CUnnest 0 0 x))
+| CInValues neg l e1 es : can 8 l -> can 12 e1 -> Forall (can 12) es -> can 9 (EIn neg l (CValues 0 0 (e1 :: es))).
+
+(* the tokens of the further elements of a list: , e2 , e3 ... *)
+Fixpoint spell_more (r : list expr) : toks := match r with [] => [] | x :: r' => tk "," :: spell x ++ spell_more r' end.
+
+(* induction principle that also gives the hypothesis for the elements of a value list *)
+Section CanInd.
+  Variable P : nat -> expr -> Prop.
+  Hypothesis HUp : forall n m e, can n e -> P n e -> (n <= m)%nat -> P m e.
+  Hypothesis HAtom : forall e, atom e -> P 0%nat e.
+  Hypothesis HParen : forall e, can 12 e -> P 12%nat e -> P 0%nat (EParen 0 0 e).
+  Hypothesis HSInt : forall c base v, (c = x2b \/ c = x2d) -> unsigned v = true -> P 2%nat (EInt 0 0 base (c :: v)).
+  Hypothesis HSFloat : forall c v, (c = x2b \/ c = x2d) -> unsigned v = true -> P 2%nat (EFloat 0 0 (c :: v)).
+  Hypothesis HUnary : forall op e, (op = bs "+" \/ op = bs "-" \/ op = bs "~") -> can 2 e -> P 2%nat e ->
+                                   (op = bs "~" \/ is_unsigned_number e = false) -> P 2%nat (EUnary 0 op e).
+  Hypothesis HNot : forall e, can 10 e -> P 10%nat e -> P 10%nat (EUnary 0 (bs "NOT") e).
+  Hypothesis HBin : forall op n l r, op_level op = Some n -> (n <= 8 \/ n = 11 \/ n = 12)%nat ->
+                                     can n l -> P n l -> can (Nat.pred n) r -> P (Nat.pred n) r -> P n (EBinary op l r).
+  Hypothesis HCmp : forall op l r, op_level op = Some 9%nat -> can 8 l -> P 8%nat l -> can 8 r -> P 8%nat r -> P 9%nat (EBinary op l r).
+  Hypothesis HIsNull : forall neg l, can 8 l -> P 8%nat l -> P 9%nat (EIsNull 0 neg l).
+  Hypothesis HIsBool : forall neg l v, can 8 l -> P 8%nat l -> P 9%nat (EIsBool 0 neg l v).
+  Hypothesis HBetween : forall neg l s x, can 8 l -> P 8%nat l -> can 8 s -> P 8%nat s -> can 8 x -> P 8%nat x -> P 9%nat (EBetween neg l s x).
+  Hypothesis HInUnnest : forall neg l x, can 8 l -> P 8%nat l -> can 12 x -> P 12%nat x -> P 9%nat (EIn neg l (CUnnest 0 0 x)).
+  Hypothesis HInValues : forall neg l e1 es, can 8 l -> P 8%nat l -> can 12 e1 -> P 12%nat e1 -> Forall (can 12) es -> Forall (P 12%nat) es ->
+                                             P 9%nat (EIn neg l (CValues 0 0 (e1 :: es))).
+
+  Fixpoint can_ind' n e (c : can n e) {struct c} : P n e :=
+    match c in can n e return P n e with
+    | CUp n m e h l => HUp n m e h (can_ind' n e h) l
+    | CAtom e a => HAtom e a
+    | CParen e h => HParen e h (can_ind' _ e h)
+    | CSignedInt c base v hc hu => HSInt c base v hc hu
+    | CSignedFloat c v hc hu => HSFloat c v hc hu
+    | CUnary op e ho h hf => HUnary op e ho h (can_ind' _ e h) hf
+    | CNot e h => HNot e h (can_ind' _ e h)
+    | CBin op n l r ho hn hl hr => HBin op n l r ho hn hl (can_ind' _ l hl) hr (can_ind' _ r hr)
+    | CCmp op l r ho hl hr => HCmp op l r ho hl (can_ind' _ l hl) hr (can_ind' _ r hr)
+    | CIsNull neg l hl => HIsNull neg l hl (can_ind' _ l hl)
+    | CIsBool neg l v hl => HIsBool neg l v hl (can_ind' _ l hl)
+    | CBetween neg l s x hl hs hx => HBetween neg l s x hl (can_ind' _ l hl) hs (can_ind' _ s hs) hx (can_ind' _ x hx)
+    | CInUnnest neg l x hl hx => HInUnnest neg l x hl (can_ind' _ l hl) hx (can_ind' _ x hx)
+    | CInValues neg l e1 es hl h1 hes =>
+        HInValues neg l e1 es hl (can_ind' _ l hl) h1 (can_ind' _ e1 h1) hes
+          ((fix go (es : list expr) (f : Forall (can 12) es) {struct f} : Forall (P 12%nat) es :=
+              match f in Forall _ es return Forall (P 12%nat) es with
+              | Forall_nil _ => Forall_nil _
+              | @Forall_cons _ _ x l hx ht => Forall_cons x (can_ind' _ x hx) (go l ht)
+              end) es hes)
+    end.
+End CanInd.
